@@ -190,27 +190,19 @@ func (s *KevoServiceServer) Scan(req *pb.ScanRequest, stream pb.KevoService_Scan
 	}
 	defer tx.Rollback() // Always rollback read-only TX when done
 
-	// Create appropriate iterator based on request parameters
+	// Every option restricts the result: start from the key range (or the whole
+	// keyspace), then filter by prefix and by suffix
 	var iter iterator.Iterator
-	if len(req.Prefix) > 0 && len(req.Suffix) > 0 {
-		// Create a combined prefix-suffix iterator
-		baseIter := tx.NewIterator()
-		prefixIter := filtered.NewPrefixIterator(baseIter, req.Prefix)
-		iter = filtered.NewSuffixIterator(prefixIter, req.Suffix)
-	} else if len(req.Prefix) > 0 {
-		// Create a prefix iterator
-		baseIter := tx.NewIterator()
-		iter = filtered.NewPrefixIterator(baseIter, req.Prefix)
-	} else if len(req.Suffix) > 0 {
-		// Create a suffix iterator
-		baseIter := tx.NewIterator()
-		iter = filtered.NewSuffixIterator(baseIter, req.Suffix)
-	} else if len(req.StartKey) > 0 || len(req.EndKey) > 0 {
-		// Create a range iterator
+	if len(req.StartKey) > 0 || len(req.EndKey) > 0 {
 		iter = tx.NewRangeIterator(req.StartKey, req.EndKey)
 	} else {
-		// Create a full scan iterator
 		iter = tx.NewIterator()
+	}
+	if len(req.Prefix) > 0 {
+		iter = filtered.NewPrefixIterator(iter, req.Prefix)
+	}
+	if len(req.Suffix) > 0 {
+		iter = filtered.NewSuffixIterator(iter, req.Suffix)
 	}
 
 	count := int32(0)
@@ -405,27 +397,19 @@ func (s *KevoServiceServer) TxScan(req *pb.TxScanRequest, stream pb.KevoService_
 		limit = req.Limit
 	}
 
-	// Create appropriate iterator based on request parameters
+	// Every option restricts the result: start from the key range (or the whole
+	// keyspace), then filter by prefix and by suffix
 	var iter iterator.Iterator
-	if len(req.Prefix) > 0 && len(req.Suffix) > 0 {
-		// Create a combined prefix-suffix iterator
-		baseIter := tx.NewIterator()
-		prefixIter := filtered.NewPrefixIterator(baseIter, req.Prefix)
-		iter = filtered.NewSuffixIterator(prefixIter, req.Suffix)
-	} else if len(req.Prefix) > 0 {
-		// Create a prefix iterator
-		baseIter := tx.NewIterator()
-		iter = filtered.NewPrefixIterator(baseIter, req.Prefix)
-	} else if len(req.Suffix) > 0 {
-		// Create a suffix iterator
-		baseIter := tx.NewIterator()
-		iter = filtered.NewSuffixIterator(baseIter, req.Suffix)
-	} else if len(req.StartKey) > 0 || len(req.EndKey) > 0 {
-		// Create a range iterator
+	if len(req.StartKey) > 0 || len(req.EndKey) > 0 {
 		iter = tx.NewRangeIterator(req.StartKey, req.EndKey)
 	} else {
-		// Create a full scan iterator
 		iter = tx.NewIterator()
+	}
+	if len(req.Prefix) > 0 {
+		iter = filtered.NewPrefixIterator(iter, req.Prefix)
+	}
+	if len(req.Suffix) > 0 {
+		iter = filtered.NewSuffixIterator(iter, req.Suffix)
 	}
 
 	count := int32(0)
